@@ -115,16 +115,26 @@ def tlc(specdir, module, cfg=None, workers="auto", timeout=900, simulate=None, d
     return res
 
 
+SKIPPED_LINES = [0]
+
+
 def tlc_lines(out_path, tag):
-    """yields the JSON payloads of <<"TAG", "json">> lines TLC printed"""
-    pat = re.compile(r'^<<"' + tag + r'", "(.*)">>\s*$')
+    """yields the JSON payloads of <<"TAG", "json">> lines TLC printed. Several TLC workers print concurrently: two records
+    may share a line, and a record torn by another one is skipped (counted in SKIPPED_LINES, reported by finish())"""
+    pat = re.compile(r'<<"' + tag + r'", "(.*?)(?<!\\)">>')
     with open(out_path, errors="replace") as f:
         for line in f:
-            if not line.startswith('<<"' + tag):
+            if '<<"' + tag not in line:
                 continue
-            m = pat.match(line)
-            if m:
-                yield json.loads(json.loads('"' + m.group(1) + '"'))
+            found = False
+            for m in pat.finditer(line):
+                found = True
+                try:
+                    yield json.loads(json.loads('"' + m.group(1) + '"'))
+                except ValueError:
+                    SKIPPED_LINES[0] += 1
+            if not found:
+                SKIPPED_LINES[0] += 1
 
 
 def build_harness(scratch, cmd):
@@ -241,6 +251,8 @@ def finish(prop, violations, known_hits, notes=()):
     """violations: list of (key string, replay path); known_hits: dict key name -> text"""
     for n in notes:
         print("NOTE", n)
+    if SKIPPED_LINES[0]:
+        print("NOTE %d TLC output records were torn by concurrent printing and skipped" % SKIPPED_LINES[0])
     for k, text in sorted(known_hits.items()):
         print("KNOWN-FINDING: property=%s %s -- %s" % (prop, k, text))
     if violations:
@@ -260,4 +272,11 @@ def main_guard(fn):
         fn()
     except Infra as e:
         print("INFRA", e)
+        sys.exit(2)
+    except SystemExit:
+        raise
+    except BaseException:
+        # a defect of the machinery is never a verdict
+        import traceback
+        print("INFRA unexpected failure of the checking machinery:\n" + traceback.format_exc())
         sys.exit(2)
